@@ -295,6 +295,8 @@ def run_obligation(res, spec, findings, check_c04_only=False):
         cdoc = doc.model_str(m) if isinstance(doc, SymStr) else doc
         with shims.real_code():
             ctag, cval = run_with_alarm(lambda: read_nt(cdoc), 1.0)
+            if ctag == "HANG" and tag != "HANG":      # symbolic run terminated: second, generous attempt before reporting a disagreement (loaded machine)
+                ctag, cval = run_with_alarm(lambda: read_nt(cdoc), 30.0)
         sym_obs = _observed(tag, val, m)
         con_obs = _observed(ctag, cval, None)
         if sym_obs != con_obs:
